@@ -154,6 +154,9 @@ def finish(ctx, check_meta):
             real.append(v)
     os.makedirs(REPLAY_DIR, exist_ok=True)
     os.makedirs(EVIDENCE_DIR, exist_ok=True)
+    import glob
+    for old_file in glob.glob(os.path.join(REPLAY_DIR, "%s_%s_*.json" % (ctx.prop, ctx.tier))):
+        os.remove(old_file)
     lines = []
     # group real violations by signature so that one defect prints one line (first 20 groups)
     groups = {}
@@ -207,7 +210,7 @@ def finish(ctx, check_meta):
 
 # ---- stages: cases -> observations on the real code -> TLC judgement ----------------------------
 def run_stage(ctx, name, cases, fn, module, cfg=None, sig_keys=("label", "form"), nontrivial=None,
-              raise_is_violation=True, judge_workers=2):
+              raise_is_violation=True, judge_workers=2, diagnose=None):
     """Run fn(case) -> observation dict (or list of dicts) for every case in a process pool, have the
     TLA+ trace module judge every observation, and turn rejections into violations."""
     cases = list(cases)
@@ -242,6 +245,11 @@ def run_stage(ctx, name, cases, fn, module, cfg=None, sig_keys=("label", "form")
         for k in sig_keys:
             if k in case:
                 sig[k] = case[k]
+        if diagnose is not None:
+            try:
+                sig.update(diagnose(case, r) or {})
+            except Exception as ex:  # noqa: BLE001
+                sig["diagnose_error"] = repr(ex)[:80]
         ctx.violation(sig, "%s: %s rejected (%s); expected %s" % (name, case.get("text", case.get("label", "case")),
                                                                  r["clause"], r["detail"][:200]),
                       dict(case, observed=r["obs"], expected=r["detail"]))
